@@ -29,6 +29,10 @@ func init() {
 		Level:       "held on every executed case: complete sweep of all edit sequences up to length 5 (thorough 6) over 14 (SList) / 17 (DList) operations with positional targets first/middle/last/absent plus seeded random sequences up to length 30; the Each sequence, First/Last, Find of every value, error results, absence of panics and cycles checked against a slice model after every step",
 		Technique:   "reference-model trace monitor (slice model, logical cycle bound inside the Each callback) over systematic small-scope sweep + seeded random sequences",
 		Assumptions: []string{"the slice model and the generators are trusted", "values are distinct and handles come from Find immediately before use (stale handles, duplicates and Delete(nil) are outside the property)", "Shift/Pop on a one-element list may leave it unchanged or zero its value (the model adopts what it sees)"}})
+	reg(&propCfg{ID: "C11", Pkg: "./props/c11", Variants: simple(false),
+		Level:       "held on every executed case: complete enumeration of all slices up to length 5 (thorough 6) over {0,1,2}, all pairs (<=4, <=3) and triples (<=3) for the multi-argument functions, four key functions incl. a non-idempotent one, a bounded family of Union nestings up to depth 3 incl. malformed ones, plus seeded random inputs over int/string/float64; results compared with independent quadratic references",
+		Technique:   "differential monitor against independent quadratic references + defining-property checkers",
+		Assumptions: []string{"the reference implementations are trusted", "IntersectionBy/DifferenceBy duplicate handling is read leniently (see DESIGN C11 'Not asserted')", "Intersection with zero arguments is outside the domain"}})
 	reg(&propCfg{ID: "C04", Pkg: "./props/c04", Variants: simple(false),
 		Technique:   "reference-model trace monitor (map model) over systematic small-scope sweep + seeded random sequences",
 		Assumptions: []string{"the map model and the generators are trusted", "single goroutine; concurrency is C01/C02"}})
